@@ -25,15 +25,15 @@ const (
 func (r SatResult) String() string { return [...]string{"unsat", "sat", "unknown"}[r] }
 
 type Solver struct {
-	cmdline  []string
-	cmd      *exec.Cmd
-	in       io.WriteCloser
-	out      *bufio.Reader
-	defined  map[int]bool
-	declared map[string]bool
-	ufDecl   map[string]bool
-	log      *os.File
-	timeout  int // ms per query
+	cmdline    []string
+	cmd        *exec.Cmd
+	in         io.WriteCloser
+	out        *bufio.Reader
+	defined    map[int]bool
+	declared   map[string]bool
+	ufDecl     map[string]bool
+	log        *os.File
+	timeout    int // ms per query
 	pendingPop bool
 	curTimeout int
 	// script: everything permanent sent since the last Reset (declarations, definitions,
